@@ -484,3 +484,271 @@ def check_c16(tier, t0):
 
 
 CHECKS["C16"] = check_c16
+
+
+# ---------------------------------------------------------------------------------------
+# C09 loadable IC10
+# ---------------------------------------------------------------------------------------
+def names_json():
+    en = ic10load.enums()
+    q = []
+    for cls, mem in en.items():
+        for m in mem:
+            q.append(cls + "." + m)
+    return {"lt": sorted(en.get("LogicType", {})), "st": sorted(en.get("LogicSlotType", {})), "bm": sorted(en.get("LogicBatchMethod", {})),
+            "rm": sorted(en.get("LogicReagentMode", {})), "qualified": sorted(q)}
+
+
+def lineform_case(code):
+    lines = []
+    labels = []
+    for l in (code.split("\n") if code != "" else []):
+        toks = ic10load.tokenize(l)
+        com = ic10load.comment_of(l)
+        if len(toks) == 1 and toks[0].endswith(":") and len(toks[0]) > 1:
+            labels.append(toks[0][:-1])
+        lines.append({"toks": [{"t": t, "c": [ord(ch) if ord(ch) < 2**20 else 63 for ch in t]} for t in toks], "len": len(l),
+                      "note": bool(com is not None and "Generated by PyTrapIC" in com)})
+    return {"lines": lines, "labelnames": sorted(set(labels))}
+
+
+def wrapper_sweep():
+    """One small program per intrinsic wrapper, arguments chosen by the operand kinds of OpSig."""
+    sig = ic10load.opsig()
+    arg_for = {"N": ["va", "2", "1.5"], "D": ["d0", "db"], "LT": ["LogicType.Setting"], "ST": ["LogicSlotType.Occupied"],
+               "BM": ["LogicBatchMethod.Maximum"], "RM": ["LogicReagentMode.Contents"], "T": ["0"], "NAME": ['"foo"'], "RD": ["d1"]}
+    progs = []
+    for op, kinds in sorted(sig.items()):
+        if op in ("label",):
+            continue
+        fname = op + "_" if op in ("yield", "and", "or", "not") else op
+        ks = list(kinds)
+        has_out = bool(ks) and ks[0] == "R"
+        if has_out and op not in ("ins",):
+            ks = ks[1:]
+        elif has_out:
+            ks = ks  # ins: register passed explicitly
+        for variant in range(2):
+            args = []
+            for k in ks:
+                if k == "R":
+                    args.append("r5")
+                else:
+                    opts = arg_for[k]
+                    args.append(opts[variant % len(opts)])
+            call = "%s(%s)" % (fname, ", ".join(args))
+            body = "va = d0.Setting\n"
+            if has_out and op != "ins":
+                body += "vr = %s\nd1.Setting = vr\n" % call
+            else:
+                body += call + "\n"
+            progs.append(("iw_%s_%d" % (op, variant), corpus.HEADER + body))
+    return progs
+
+
+def check_c09(tier, t0):
+    import checks_lang as CL
+
+    rep = Reporter("C09")
+    progs = [(n, s) for n, s, _ in CL.pick(CL.all_progs(), tier, 40)] + list(corpus.family("term")) + edge_programs()
+    progs += [(n, s) for n, s, _ in CL.names_family()] + CL.strings_family()
+    progs += corpus.repo_programs(REPO)
+    progs += wrapper_sweep()
+    progs += [("nf_undefined", corpus._loop("d1.Setting = nothere + 1\nd2.Setting = nothere")),
+              ("nf_bitnot", corpus._loop("d1.Setting = ~d0.Setting")), ("nf_unary", corpus._loop("va = d0.Setting\nd1.Setting = -va\nd1.On = not va"))]
+    vecs = [cw.REF, dict(cw.opts(inline_functions=True), append_version=True),
+            cw.opts(original_code_as_comment=True, generated_comments=True, append_version=True),
+            cw.opts(inline_functions=True, remove_labels=True, compact=True, append_version=True)]
+    if tier == "thorough":
+        vecs += [cw.opts(use_push_pop_functions=True, tail_call_optimization=True), cw.opts(compact=True), cw.opts(remove_labels=True, generated_comments=True)]
+    jobs, meta = [], []
+    for n, s in progs:
+        for v in (vecs if not n.startswith("iw_") else vecs[:1] + vecs[3:4]):
+            jobs.append({"src": s, "options": v})
+            meta.append((n, s, v))
+    res = cw.compile_many(jobs)
+    cases, cmeta = [], []
+    nerr = 0
+    seen = set()
+    for (n, s, v), r in zip(meta, res):
+        out = r["result"]
+        if r["raised"] or not isinstance(out, dict) or not isinstance(out.get("code"), str):
+            nerr += 1
+            continue
+        if out["code"] in seen:
+            continue
+        seen.add(out["code"])
+        cases.append(lineform_case(out["code"]))
+        cmeta.append((n, s, v, out["code"]))
+    if len(cases) < 50:
+        raise MachineryError("only %d compiled programs" % len(cases))
+    mut = copy.deepcopy(next(c for c in cases if any(len(l["toks"]) >= 3 for l in c["lines"])))
+    for l in mut["lines"]:
+        if len(l["toks"]) >= 3:
+            l["toks"][1] = {"t": "__register.7_", "c": [ord(ch) for ch in "__register.7_"]}
+            break
+    r = tlc("C09", "LineForm", "SPECIFICATION Spec\nCHECK_DEADLOCK FALSE\n", files={"cases.json": cases + [mut], "names.json": names_json()},
+            workers=NCPU, timeout=3000)
+    if not r.ok:
+        raise MachineryError("LineForm.tla failed:\n" + r.out[-3000:])
+    verd = {}
+    for p in r.tagged("VERDICTS"):
+        for item in p[2]["__set__"]:
+            verd.setdefault(p[1], []).append((item[1], item[0]))
+    if not any(v[0] == "PLACEHOLDER_OR_PYTHON_SPELLING" for v in verd.get(len(cases) + 1, [])):
+        raise MachineryError("binding self-test failed: LineForm.tla accepted a virtual register name")
+    bad = 0
+    nlines = sum(len(c["lines"]) for c in cases)
+    for k in range(1, len(cases) + 1):
+        vs = verd.get(k)
+        if not vs:
+            raise MachineryError("no verdict for case %d" % k)
+        n, s, v, code = cmeta[k - 1]
+        for vd, ln in vs:
+            if vd == "OK":
+                continue
+            text = code.split("\n")[ln - 1] if 0 < ln <= len(code.split("\n")) else ""
+            opn = (ic10load.tokenize(text) or [""])[0]
+            if rep.violation([n, n + "@" + cw.vec_name(v), "op:" + opn], vd,
+                             {"property": "C09", "case": n, "options": v, "source": s, "code": code, "line": ln, "text": text, "verdict": vd},
+                             "case=%s variant=%s line %d `%s`: %s" % (n, cw.vec_name(v), ln, text.strip()[:60], vd)):
+                bad += 1
+    cov = {"states": r.distinct, "transitions": r.generated, "traces_validated_against_impl": len(cases),
+           "evaluations": len(cases), "distinct_nontrivial": len(cases), "emitted_lines_checked": nlines,
+           "rule": "distinct emitted texts of: program families, terminating family, edge programs, identifier and string families, the "
+                   "repository's own programs, one program per intrinsic wrapper (2 argument variants chosen by OpSig kinds), under %d "
+                   "option vectors (comments, version note, compact, labels removed); TLC evaluates LineForm.tla on every line: label "
+                   "definition or known opcode with the operand count and kinds of OpSig, registers r0-r15/sp/ra, devices d0-d5/db/alias, "
+                   "numbers in IC10 syntax, no placeholder or Python spelling, version note line <= 90 characters" % len(vecs),
+           "samples": [{"case": cmeta[0][0], "emitted": cmeta[0][3]}, {"case": cmeta[-1][0], "emitted": cmeta[-1][3]}],
+           "compile_errors_skipped": nerr, "binding_self_test": "virtual register name rejected", "known_findings_hit": sorted(rep.known)}
+    return rep, cov, bad
+
+
+CHECKS["C09"] = lambda tier, t0: _c09_finish(tier, t0)
+
+
+def _c09_finish(tier, t0):
+    rep, cov, bad = check_c09(tier, t0)
+    rep2, cov2, bad2 = check_c09_numbers(tier, t0)
+    cov.update(cov2)
+    write_evidence("C09", tier, "model_checking", cov, time.time() - t0, violations=bad + bad2,
+                   assumptions=["IC10 number syntax = decimal without exponent, $hex, %binary (the formatter's own avoidance of exponents and the "
+                                "editor's highlighter agree; the game binary is not available)",
+                                "OpSig (spec/IC10Grammar.tla) gives operand counts and kinds; bare logic/slot/batch names are accepted in value positions",
+                                "the harness tokenises lines (whitespace, HASH(\"..\")/STR(\"..\") kept whole, '#' starts a comment)"])
+    rc = rep.finish()
+    rc2 = rep2.finish()
+    return 1 if (rc or rc2) else 0
+
+
+def dec_of(v, cut=40):
+    """exact decimal expansion of a Python int/float as NumFmt.tla's [neg, dig, pt], cut after `cut` significant digits
+    (ints are never cut)"""
+    from decimal import Decimal
+
+    d = Decimal(v)
+    sign, digits, exp = d.as_tuple()
+    digits = list(digits)
+    pt = len(digits) + exp
+    if isinstance(v, float):
+        digits = digits[:cut]
+    while digits and digits[-1] == 0:
+        digits.pop()
+    lead = 0
+    while lead < len(digits) and digits[lead] == 0:
+        lead += 1
+    digits = digits[lead:]
+    pt -= lead
+    if not digits:
+        return {"neg": False, "dig": [], "pt": 0}
+    return {"neg": bool(sign), "dig": digits, "pt": pt}
+
+
+def render_literal(D):
+    dig = "".join(str(x) for x in D["dig"]) or "0"
+    pt = D["pt"]
+    if pt >= len(dig):
+        body = dig + "0" * (pt - len(dig))
+    elif pt <= 0:
+        body = "0." + "0" * (-pt) + dig
+    else:
+        body = dig[:pt] + "." + dig[pt:]
+    return ("-" if D["neg"] else "") + body
+
+
+FOLDED = ["1/3", "2/3", "0.1+0.2", "10/4", "7/2", "1e-7", "5e-324", "1.7976931348623157e308", "2**0.5", "2**53", "2**53+2", "2**64",
+          "-2**31", "1e16", "1e15+0.5", "123456789.123456789", "0.1", "0.09999999999999999", "0.30000000000000004", "1e-5", "3.0", "-0.0",
+          "1/7", "1e22", "9007199254740993", "4503599627370496.5", "255", "65536", "1e6", "-1e6", "100000*100000", "0.5**20", "pi", "tau", "rgas"]
+
+
+def check_c09_numbers(tier, t0):
+    import math
+
+    rep = Reporter("C09")
+    pts = "PointsThorough" if tier == "thorough" else "PointsQuick"
+    g = tlc("C09_grid", "NumFmt", "SPECIFICATION SpecGen\nCONSTANTS\n Mantissas <- MantissaGrid\n Points <- %s\nINVARIANT ExportGrid\nCHECK_DEADLOCK FALSE\n" % pts,
+            workers=4, timeout=600)
+    if not g.ok:
+        raise MachineryError("NumFmt.tla (grid) failed:\n" + g.out[-2000:])
+    lits = [render_literal(json.loads(p[1])) for p in g.tagged("LIT")]
+    lits = sorted(set(lits)) + FOLDED
+    env = {"pi": math.pi, "tau": 2 * math.pi, "rgas": 8.31446261815324}
+    vals = []
+    for l in lits:
+        v = eval(l, {"__builtins__": {}}, env)
+        if isinstance(v, float) and v == int(v) if isinstance(v, float) and math.isfinite(v) else False:
+            v = int(v)  # IC10Operand: an integral float is an integer
+        vals.append(v)
+    per = 12
+    jobs, groups = [], []
+    for k in range(0, len(lits), per):
+        grp = list(range(k, min(k + per, len(lits))))
+        src = corpus.HEADER + "".join("d0.Setting = %s\n" % lits[i] for i in grp)
+        for v in (cw.REF, cw.opts(compact=True, remove_labels=True)):
+            jobs.append({"src": src, "options": v})
+            groups.append((grp, v, src))
+    res = cw.compile_many(jobs)
+    cases, cmeta = [], []
+    for (grp, v, src), r in zip(groups, res):
+        out = r["result"]
+        code = out.get("code") if isinstance(out, dict) else None
+        toks = []
+        if isinstance(code, str):
+            for l in code.split("\n"):
+                t = ic10load.tokenize(l)
+                if len(t) == 4 and t[0] == "s" and t[1] == "d0":
+                    toks.append(t[3])
+        for j, i in enumerate(grp):
+            tok = toks[j] if (len(toks) == len(grp)) else ""
+            cases.append({"tok": [ord(ch) for ch in tok], "val": dec_of(vals[i]), "alt": dec_of(float(vals[i])), "int": isinstance(vals[i], int)})
+            cmeta.append((lits[i], v, tok, src, code if code is not None else out))
+    mut = copy.deepcopy(next(c for c in cases if len(c["tok"]) > 3 and not c["int"]))
+    mut["tok"][-1] = 49 if mut["tok"][-1] != 49 else 50
+    mut["tok"] = mut["tok"][:3] if len(mut["tok"]) > 8 else mut["tok"] + [57]
+    r = tlc("C09_num", "NumFmt", "SPECIFICATION SpecJudge\nCONSTANTS\n Mantissas <- Nothing\n Points <- Nothing\nCHECK_DEADLOCK FALSE\n",
+            files={"cases.json": cases + [mut]}, workers=NCPU, timeout=3000)
+    if not r.ok:
+        raise MachineryError("NumFmt.tla (judge) failed:\n" + r.out[-3000:])
+    tv = r.verdicts()
+    if tv.get(len(cases) + 1, set()) - {"reported"} == {"OK"} or not tv.get(len(cases) + 1):
+        raise MachineryError("binding self-test failed: NumFmt.tla accepted a corrupted token")
+    bad = 0
+    for k in range(1, len(cases) + 1):
+        vs = tv.get(k, set()) - {"reported"}
+        if not vs:
+            raise MachineryError("no verdict for numeric case %d" % k)
+        lit, v, tok, src, code = cmeta[k - 1]
+        for vd in vs:
+            if vd == "OK":
+                continue
+            if rep.violation(["num:" + lit, "num:" + lit + "@" + cw.vec_name(v)], vd,
+                             {"property": "C09", "literal": lit, "options": v, "token": tok, "source": src, "result": code, "verdict": vd},
+                             "literal %s variant=%s token `%s`: %s" % (lit, cw.vec_name(v), tok[:40], vd)):
+                bad += 1
+    cov = {"numeric_literals_checked": len(cases), "numeric_states": g.distinct + r.distinct,
+           "numeric_samples": [{"literal": cmeta[k][0], "token": cmeta[k][2]} for k in (0, len(cmeta) // 2, len(cmeta) - 1)],
+           "numeric_rule": "NumFmt.tla SpecGen enumerates mantissas x decimal-point positions x sign around the formatter's branch points; plus "
+                           "folded expressions; each literal is compiled (verbose and compact) and the token read back in TLC: IC10 number "
+                           "syntax, integers up to 2^53 exact, everything else within half a unit of the 16th significant digit"}
+    return rep, cov, bad
